@@ -1,8 +1,915 @@
-//! C10 — not implemented yet.
+//! C10 — names with spaces and symbols resolve to their bound value (longest match).
+//!
+//! Implementation under test: the lexer of dmntk-feel-parser (through the hook
+//! `verif::tokenize`), `Name::new`, and end to end `parse_expression` + `evaluate` against a
+//! scope built programmatically from `(Name, Value)` pairs.
+//!
+//! Families
+//! * `tokens`   impl = model: the whole token stream (type, value text, cursor) of the hook
+//!              against `Dmn.Lexer.tokenize` (generated scopes × name occurrences × followers,
+//!              whole expressions, random fragments with random lexer flags).
+//! * `resolve`  impl ⊨ spec: at a name occurrence the lexer's token is the longest bound name
+//!              (`Dmn.Lexer.specResolve`: structural splitter + `Name::new` normalisation) and
+//!              the cursor stands just after it.
+//! * `evaluate` impl ⊨ spec: `evaluate(parse_expression(scope, e))` equals the value of `e`
+//!              with every name occurrence replaced (as the specification resolves it) by the
+//!              literal of its bound value, evaluated in an empty scope.
+//! * `namenew`  impl = model: `Name::new` against `Dmn.Lexer.nameNew`.
 
-use crate::report::Report;
+use crate::model::Model;
+use crate::report::{Kind, Report};
+use crate::rng::Rng;
+use crate::sexp::Sexp;
+use crate::util::guarded;
 use crate::Cfg;
+use dmntk_feel::context::FeelContext;
+use dmntk_feel::values::Value;
+use dmntk_feel::{FeelNumber, Name, Scope};
+use dmntk_feel_parser::VerifTokenType as TT;
+use serde_json::json;
 
-pub fn run(_cfg: &Cfg) -> Report {
-  Report::new("C10", "not implemented")
+const WORDS: [&str; 14] = ["a", "b", "c", "ab", "abc", "x1", "é", "żółw", "日本", "Δx", "n_1", "?q", "Z", "ba"];
+/// words that may only follow another word (they start with a digit / a combining part char)
+const LATER_WORDS: [&str; 3] = ["2", "10", "·k"];
+const SYMBOLS: [&str; 6] = [".", "/", "-", "'", "+", "*"];
+const BLANKS: [&str; 6] = [" ", "  ", "\t", "\n", "\u{00A0}", " \u{2003}"];
+const PRIMES: [i128; 8] = [2, 3, 5, 7, 11, 13, 17, 19];
+
+/// Token type code → `Debug` text of the payload-free `TokenValue`.
+fn simple_value_name(code: i32) -> Option<&'static str> {
+  let table: [(TT, &str); 57] = [
+    (TT::YyEof, "YyEof"),
+    (TT::YyError, "YyError"),
+    (TT::YyUndef, "YyUndef"),
+    (TT::StartExpression, "StartExpression"),
+    (TT::StartBoxedExpression, "StartBoxedExpression"),
+    (TT::StartContext, "StartBoxedExpression"),
+    (TT::StartTextualExpression, "StartTextualExpression"),
+    (TT::StartTextualExpressions, "StartTextualExpressions"),
+    (TT::StartUnaryTests, "StartUnaryTests"),
+    (TT::At, "At"),
+    (TT::Not, "Not"),
+    (TT::Colon, "Colon"),
+    (TT::Comma, "Comma"),
+    (TT::Every, "Every"),
+    (TT::For, "For"),
+    (TT::LeftBrace, "LeftBrace"),
+    (TT::Null, "Null"),
+    (TT::RightArrow, "RightArrow"),
+    (TT::Of, "Of"),
+    (TT::List, "List"),
+    (TT::Range, "Range"),
+    (TT::Context, "Context"),
+    (TT::Then, "Then"),
+    (TT::Function, "Function"),
+    (TT::External, "External"),
+    (TT::If, "If"),
+    (TT::RightBrace, "RightBrace"),
+    (TT::RightBracket, "RightBracket"),
+    (TT::RightParen, "RightParen"),
+    (TT::Return, "Return"),
+    (TT::Ellipsis, "Ellipsis"),
+    (TT::Some, "Some"),
+    (TT::Satisfies, "Satisfies"),
+    (TT::Else, "Else"),
+    (TT::Or, "Or"),
+    (TT::And, "And"),
+    (TT::Eq, "Eq"),
+    (TT::Nq, "Nq"),
+    (TT::Lt, "Lt"),
+    (TT::Le, "Le"),
+    (TT::Gt, "Gt"),
+    (TT::Ge, "Ge"),
+    (TT::Between, "Between"),
+    (TT::BetweenAnd, "BetweenAnd"),
+    (TT::In, "In"),
+    (TT::Minus, "Minus"),
+    (TT::Plus, "Plus"),
+    (TT::Mul, "Mul"),
+    (TT::Div, "Div"),
+    (TT::Exp, "Exp"),
+    (TT::Instance, "Instance"),
+    (TT::LeftParen, "LeftParen"),
+    (TT::LeftBracket, "LeftBracket"),
+    (TT::Dot, "Dot"),
+    (TT::Numeric, "#payload"),
+    (TT::String, "#payload"),
+    (TT::Boolean, "#payload"),
+  ];
+  table.iter().find(|(t, _)| t.clone() as i32 == code).map(|(_, n)| *n)
+}
+
+fn cps_to_string(x: &Sexp) -> Option<String> {
+  let xs = x.as_list()?;
+  if xs.first()?.as_atom()? != "s" {
+    return None;
+  }
+  let mut s = String::new();
+  for c in &xs[1..] {
+    s.push(char::from_u32(c.as_atom()?.parse::<u32>().ok()?)?);
+  }
+  Some(s)
+}
+
+fn chr(x: &Sexp) -> Option<char> {
+  char::from_u32(x.as_atom()?.parse::<u32>().ok()?)
+}
+
+/// One item of the model's answer rendered the way the hook reports it:
+/// `(type code, Debug text of the value or error message, Some(position))`;
+/// a panic is `(-2, site, None)`.
+pub fn model_item(x: &Sexp) -> Option<(i32, String, Option<usize>)> {
+  let xs = x.as_list()?;
+  match xs.first()?.as_atom()? {
+    "tok" => {
+      let code: i32 = xs.get(1)?.as_atom()?.parse().ok()?;
+      let pos: usize = xs.get(3)?.as_atom()?.parse().ok()?;
+      let text = match xs.get(2)? {
+        Sexp::Atom(a) if a == "none" => simple_value_name(code)?.to_string(),
+        Sexp::List(p) => match p.first()?.as_atom()? {
+          "b" => format!("Boolean({})", p.get(1)?.as_atom()?),
+          "num" => format!("Numeric({:?}, {:?})", cps_to_string(p.get(1)?)?, cps_to_string(p.get(2)?)?),
+          "str" => format!("String({:?})", cps_to_string(p.get(1)?)?),
+          "name" => {
+            let n = cps_to_string(p.get(1)?)?;
+            if code == TT::Name as i32 {
+              format!("Name(Name({:?}))", n)
+            } else if code == TT::NameDateTime as i32 {
+              format!("NameDateTime(Name({:?}))", n)
+            } else if code == TT::BuiltInTypeName as i32 {
+              format!("BuiltInTypeName(Name({:?}))", n)
+            } else {
+              return None;
+            }
+          }
+          _ => return None,
+        },
+        _ => return None,
+      };
+      Some((code, text, Some(pos)))
+    }
+    "err" => {
+      let kind = xs.get(1)?.as_atom()?;
+      let pos: usize = xs.last()?.as_atom()?.parse().ok()?;
+      let msg = match kind {
+        "unexpectedEof" => "unexpected end of file".to_string(),
+        "expectedCharacter" => format!("expected '{}' character but encountered '{}'", chr(xs.get(2)?)?, chr(xs.get(3)?)?),
+        "expectedCharacters" => format!("expected '{:?}' characters but encountered '{}'", vec!['u', 'U'], chr(xs.get(2)?)?),
+        "expectedHexDigit" => format!("expected hex digit but encountered '{}'", chr(xs.get(2)?)?),
+        "unicodeValueOutOfRange" => format!(
+          "Unicode value is out of allowed range 0x0000..0x10FFFF : {:X}",
+          xs.get(2)?.as_atom()?.parse::<u64>().ok()?
+        ),
+        "unicodeSurrogateOutOfRange" => format!(
+          "UTF-16 surrogate value is out of allowed range 0xD800..0xDFFF : {:X}",
+          xs.get(2)?.as_atom()?.parse::<u64>().ok()?
+        ),
+        "unicodeConversionFailed" => format!(
+          "conversion of the value {:X} to Unicode character has failed.",
+          xs.get(2)?.as_atom()?.parse::<u64>().ok()?
+        ),
+        _ => return None,
+      };
+      Some((-1, format!("LexerError: {}", msg), Some(pos)))
+    }
+    "panic" => Some((-2, xs.get(1)?.as_atom()?.to_string(), None)),
+    "fuelout" => Some((-3, "fuelout".to_string(), None)),
+    _ => None,
+  }
+}
+
+/// Request line for the model's tokenizer.
+pub fn tokenize_request(keys: &[String], input: &str, flags: (bool, bool, bool, bool), limit: usize) -> String {
+  Sexp::list(vec![
+    Sexp::atom("c10"),
+    Sexp::atom("tokenize"),
+    Sexp::list(vec![Sexp::bool(flags.0), Sexp::bool(flags.1), Sexp::bool(flags.2), Sexp::bool(flags.3)]),
+    Sexp::list(keys.iter().map(|k| Sexp::str(k)).collect()),
+    Sexp::str(input),
+    Sexp::int(limit),
+  ])
+  .to_string()
+}
+
+/// The hook, with a panic of the lexer as an observation.
+pub fn impl_tokens(scope: &Scope, input: &str, flags: (bool, bool, bool, bool), limit: usize) -> Result<Vec<(i32, String, usize)>, String> {
+  guarded(|| dmntk_feel_parser::verif::tokenize(scope, TT::StartExpression, input, flags, limit))
+}
+
+/// Compares the hook's stream with the model's answer; returns a description of the first
+/// difference. A model panic must coincide with a caught panic of the implementation.
+pub fn compare_streams(imp: &Result<Vec<(i32, String, usize)>, String>, model_answer: &str) -> Result<(), (String, String, String)> {
+  let parsed = Sexp::parse(model_answer).and_then(|s| s.as_list().map(|l| l.to_vec()));
+  let items = match parsed {
+    Some(items) => items,
+    None => return Err(("model answer unreadable".into(), format!("{:?}", imp), model_answer.to_string())),
+  };
+  let mut model: Vec<(i32, String, Option<usize>)> = vec![];
+  for it in &items {
+    match model_item(it) {
+      Some(m) => model.push(m),
+      None => return Err(("model item unreadable".into(), format!("{:?}", imp), model_answer.to_string())),
+    }
+  }
+  let model_panics = model.last().map(|m| m.0 == -2).unwrap_or(false);
+  match imp {
+    Err(msg) => {
+      if model_panics {
+        Ok(())
+      } else {
+        Err(("implementation panics, model does not".into(), format!("panic: {}", msg), format!("{:?}", model)))
+      }
+    }
+    Ok(toks) => {
+      if model_panics {
+        return Err(("model panics, implementation does not".into(), format!("{:?}", toks), format!("{:?}", model)));
+      }
+      if model.iter().any(|m| m.0 == -3) {
+        return Err(("model ran out of fuel".into(), format!("{:?}", toks), format!("{:?}", model)));
+      }
+      for (i, t) in toks.iter().enumerate() {
+        match model.get(i) {
+          None => return Err(("model stream shorter".into(), format!("{:?}", toks), format!("{:?}", model))),
+          Some(m) => {
+            if m.0 != t.0 {
+              return Err(("token type differs".into(), format!("{:?}", t), format!("{:?}", m)));
+            }
+            if m.1 != t.1 {
+              return Err(("token value differs".into(), format!("{:?}", t), format!("{:?}", m)));
+            }
+            if m.2 != Some(t.2) {
+              return Err(("cursor position differs".into(), format!("{:?}", t), format!("{:?}", m)));
+            }
+          }
+        }
+      }
+      if model.len() != toks.len() {
+        return Err(("model stream longer".into(), format!("{:?}", toks), format!("{:?}", model)));
+      }
+      Ok(())
+    }
+  }
+}
+
+/// A bound name: its parts (words and symbols), its `Name`, its value and the literal text
+/// of the value.
+#[derive(Clone, Debug)]
+pub struct Bound {
+  pub parts: Vec<String>,
+  pub name: Name,
+  pub value: Value,
+  pub literal: String,
+  /// outside "words joined by symbols": adjacent additional symbols or a trailing one
+  pub exotic: bool,
+}
+
+fn is_symbol(p: &str) -> bool {
+  SYMBOLS.contains(&p)
+}
+
+fn gen_parts(rng: &mut Rng) -> Vec<String> {
+  let n_words = 1 + rng.below(4) as usize;
+  let mut parts = vec![rng.pick(&WORDS).to_string()];
+  for _ in 1..n_words {
+    if rng.chance(2, 5) {
+      parts.push(rng.pick(&SYMBOLS).to_string());
+      parts.push(rng.pick(&WORDS).to_string());
+    } else if rng.chance(1, 6) {
+      parts.push(rng.pick(&LATER_WORDS).to_string());
+    } else {
+      parts.push(rng.pick(&WORDS).to_string());
+    }
+  }
+  parts
+}
+
+/// 1..6 bound names, closed (with some probability) under "prefix of" and
+/// "operator-joined combination of".
+pub fn gen_bound(rng: &mut Rng, exotic: bool) -> Vec<Bound> {
+  let target = 1 + rng.below(6) as usize;
+  let mut sets: Vec<Vec<String>> = vec![];
+  let mut push = |sets: &mut Vec<Vec<String>>, p: Vec<String>| {
+    let n = Name::new(&p.iter().map(|s| s.as_str()).collect::<Vec<&str>>());
+    if !p.is_empty() && !sets.iter().any(|q| Name::new(&q.iter().map(|s| s.as_str()).collect::<Vec<&str>>()) == n) {
+      sets.push(p);
+    }
+  };
+  let mut guard = 0;
+  while sets.len() < target && guard < 50 {
+    guard += 1;
+    let choice = rng.below(10);
+    if sets.is_empty() || choice < 4 {
+      push(&mut sets, gen_parts(rng));
+    } else if choice < 6 {
+      // a prefix (ending on a word) of an existing name
+      let p = rng.pick(&sets).clone();
+      let mut k = 1 + rng.below(p.len() as u64) as usize;
+      while k > 1 && is_symbol(&p[k - 1]) {
+        k -= 1;
+      }
+      push(&mut sets, p[..k].to_vec());
+    } else if choice < 8 {
+      // two existing names joined by a symbol
+      let a = rng.pick(&sets).clone();
+      let b = rng.pick(&sets).clone();
+      if !LATER_WORDS.contains(&b[0].as_str()) {
+        let mut p = a;
+        p.push(rng.pick(&SYMBOLS).to_string());
+        p.extend(b);
+        if p.len() <= 9 {
+          push(&mut sets, p);
+        }
+      }
+    } else if choice < 9 {
+      // two existing names side by side
+      let a = rng.pick(&sets).clone();
+      let b = rng.pick(&sets).clone();
+      let mut p = a;
+      p.extend(b);
+      if p.len() <= 9 {
+        push(&mut sets, p);
+      }
+    } else {
+      // the single words of an existing name
+      let p = rng.pick(&sets).clone();
+      for w in p {
+        if !is_symbol(&w) && !LATER_WORDS.contains(&w.as_str()) {
+          push(&mut sets, vec![w]);
+        }
+      }
+    }
+  }
+  if exotic {
+    // names outside "words joined by symbols": adjacent symbols, trailing symbol
+    let mut p = gen_parts(rng);
+    if rng.chance(1, 2) {
+      p.push(rng.pick(&SYMBOLS).to_string());
+    } else {
+      p.push(rng.pick(&SYMBOLS).to_string());
+      p.push(rng.pick(&SYMBOLS).to_string());
+      p.push(rng.pick(&WORDS).to_string());
+    }
+    push(&mut sets, p);
+  }
+  sets.truncate(7);
+  sets
+    .into_iter()
+    .enumerate()
+    .map(|(i, parts)| {
+      let name = Name::new(&parts.iter().map(|s| s.as_str()).collect::<Vec<&str>>());
+      let n = PRIMES[i % PRIMES.len()];
+      let exotic = parts.last().map(|p| is_symbol(p)).unwrap_or(false) || parts.windows(2).any(|w| is_symbol(&w[0]) && is_symbol(&w[1]));
+      Bound {
+        exotic,
+        parts,
+        name,
+        value: Value::Number(FeelNumber::from_i128(n)),
+        literal: format!("{}", n),
+      }
+    })
+    .collect()
+}
+
+pub fn scope_of(bound: &[Bound]) -> Scope {
+  let scope = Scope::default();
+  for b in bound {
+    scope.set_entry(&b.name, b.value.clone());
+  }
+  scope
+}
+
+pub fn sorted_keys(scope: &Scope) -> Vec<String> {
+  let mut keys: Vec<String> = scope.flatten_keys().into_iter().collect();
+  keys.sort();
+  keys
+}
+
+/// One way of writing the name: blanks between words, optional blanks around symbols.
+pub fn render(rng: &mut Rng, parts: &[String]) -> String {
+  let mut s = String::new();
+  for (i, p) in parts.iter().enumerate() {
+    if i > 0 {
+      let around_symbol = is_symbol(p) || is_symbol(&parts[i - 1]);
+      if around_symbol {
+        match rng.below(4) {
+          0 => s.push(' '),
+          1 => s.push_str(*rng.pick(&BLANKS)),
+          _ => {}
+        }
+      } else if rng.chance(3, 4) {
+        s.push(' ');
+      } else {
+        s.push_str(*rng.pick(&BLANKS));
+      }
+    }
+    s.push_str(p);
+  }
+  s
+}
+
+fn canon(v: &Value) -> String {
+  match v {
+    Value::Null(_) => "null".to_string(),
+    Value::List(items) => format!("[{}]", items.as_vec().iter().map(canon).collect::<Vec<String>>().join(", ")),
+    other => other.to_string(),
+  }
+}
+
+fn eval_text(scope: &Scope, text: &str) -> String {
+  match guarded(|| match dmntk_feel_parser::parse_expression(scope, text, false) {
+    Ok(node) => match dmntk_feel_evaluator::evaluate(scope, &node) {
+      Ok(v) => canon(&v),
+      Err(e) => format!("evaluate-error: {}", e),
+    },
+    Err(e) => format!("parse-error: {}", e),
+  }) {
+    Ok(s) => s,
+    Err(p) => format!("panic: {}", p),
+  }
+}
+
+/// A piece of an expression template.
+#[derive(Clone, Debug)]
+#[allow(dead_code)]
+enum Piece {
+  T(&'static str),
+  /// occurrence of the i-th chosen bound name
+  N(usize),
+  /// binding site / occurrence of the j-th local name
+  L(usize),
+  /// occurrence of the scope's context-valued bound name (value `{fld: 2}`)
+  C,
+}
+
+use Piece::{C, L, N, T};
+
+fn templates() -> Vec<(&'static str, Vec<Piece>)> {
+  vec![
+    ("operand", vec![N(0)]),
+    ("operand", vec![N(0), T(" + 1")]),
+    ("operand", vec![T("1 + "), N(0)]),
+    ("operand", vec![N(0), T("+1")]),
+    ("operand", vec![N(0), T(" - 1")]),
+    ("operand", vec![N(0), T("-1")]),
+    ("operand", vec![N(0), T(" * 2")]),
+    ("operand", vec![N(0), T("/2")]),
+    ("operand", vec![N(0), T(" ** 2")]),
+    ("operand", vec![T("-"), N(0)]),
+    ("operand", vec![T("("), N(0), T(")")]),
+    ("operator-joined", vec![N(0), T("+"), N(1)]),
+    ("operator-joined", vec![N(0), T(" + "), N(1)]),
+    ("operator-joined", vec![N(0), T("-"), N(1)]),
+    ("operator-joined", vec![N(0), T(" - "), N(1)]),
+    ("operator-joined", vec![N(0), T("*"), N(1)]),
+    ("operator-joined", vec![N(0), T(" * "), N(1)]),
+    ("operator-joined", vec![N(0), T("/"), N(1)]),
+    ("operator-joined", vec![N(0), T(" / "), N(1)]),
+    ("operator-joined", vec![N(0), T(" -"), N(1), T("+ "), N(2)]),
+    ("side-by-side", vec![T("["), N(0), T(", "), N(1), T("]")]),
+    ("comparison", vec![N(0), T(" < "), N(1)]),
+    ("comparison", vec![N(0), T("="), N(1)]),
+    ("comparison", vec![N(0), T(" != "), N(1)]),
+    ("argument", vec![T("abs("), N(0), T(")")]),
+    ("argument", vec![T("max("), N(0), T(", "), N(1), T(")")]),
+    ("argument", vec![T("sum(["), N(0), T(","), N(1), T("])")]),
+    ("argument", vec![T("decimal(n: "), N(0), T(", scale: 1)")]),
+    ("if", vec![T("if "), N(0), T(" > 0 then "), N(1), T(" else "), N(2)]),
+    ("if", vec![T("if "), N(0), T(" < 0 then "), N(1), T(" else "), N(2)]),
+    ("if", vec![T("if "), N(0), T(" = "), N(0), T(" then "), N(1), T(" else 0")]),
+    ("for", vec![T("for i in ["), N(0), T(", "), N(1), T("] return i + "), N(2)]),
+    ("for", vec![T("for i in 1.."), N(0), T(" return "), N(1)]),
+    ("for-local", vec![T("for "), L(0), T(" in [1, 2] return "), L(0), T(" + "), N(0)]),
+    ("for-local", vec![T("for "), L(0), T(" in ["), N(0), T("] return "), L(0), T(" * 2")]),
+    ("some", vec![T("some i in [1, "), N(0), T("] satisfies i = "), N(0)]),
+    ("every", vec![T("every i in ["), N(0), T("] satisfies i > "), N(1)]),
+    ("some-local", vec![T("some "), L(0), T(" in [1, 2] satisfies "), L(0), T(" = "), N(0), T(" - "), N(0), T(" + 2")]),
+    ("filter", vec![T("[1, 2, 3, 5, 7, 11, 13][item > "), N(0), T("]")]),
+    ("filter", vec![T("["), N(0), T(", "), N(1), T("][1]")]),
+    ("filter", vec![T("["), N(0), T(", "), N(1), T("][item = "), N(1), T("]")]),
+    ("context-entry", vec![T("{k: "), N(0), T("}.k")]),
+    ("context-entry", vec![T("{k: "), N(0), T(", j: k + "), N(1), T("}.j")]),
+    ("context-local", vec![T("{"), L(0), T(": "), N(0), T(", j: "), L(0), T(" + 1}.j")]),
+    ("context-local", vec![T("{"), L(0), T(": 1, "), L(1), T(": "), L(0), T(" + "), N(0), T("}."), L(1)]),
+    ("followed-by-in", vec![N(0), T(" in ["), N(0), T(", 1]")]),
+    ("followed-by-in", vec![N(0), T(" in (1.."), N(1), T(")")]),
+    ("followed-by-between", vec![N(0), T(" between 1 and "), N(1)]),
+    ("followed-by-between", vec![N(0), T(" between "), N(1), T(" and "), N(2)]),
+    ("followed-by-bracket", vec![T("["), N(0), T("]["), T("1]")]),
+    ("instance-of", vec![N(0), T(" instance of number")]),
+    ("conjunction", vec![N(0), T(" > 0 and "), N(1), T(" > 0")]),
+    ("disjunction", vec![N(0), T(" < 0 or "), N(1), T(" > 0")]),
+    ("path-head", vec![T("{p: "), N(0), T("}.p")]),
+    ("path-head", vec![C, T(".fld")]),
+    ("path-head", vec![T("("), C, T(" . fld) + "), N(0)]),
+    ("path-head", vec![N(0), T(" * "), C, T(".fld")]),
+    ("path-head", vec![T("["), C, T("][1].fld")]),
+    ("comment", vec![N(0), T(" /* c */ + "), N(1)]),
+    ("comment", vec![N(0), T(" // c\n + "), N(1)]),
+  ]
+}
+
+const LOCALS: [&[&str]; 6] = [&["i"], &["j", "k"], &["t", "-", "u"], &["row", "no"], &["j", "2"], &["ü", "/", "w"]];
+
+pub fn run(cfg: &Cfg) -> Report {
+  let mut rep = Report::new(
+    "C10",
+    "a case is non-trivial when the input contains a name occurrence with at least two parts (a space or an additional symbol inside the name) or when at least two bound names compete (one is a prefix / operator-joined combination of another); trivial = single-word name in a scope without competing names",
+  );
+  let mut rng = Rng::new(cfg.seed);
+  let mut model = Model::start(&cfg.driver);
+  let thorough = cfg.tier == "thorough";
+  let n_scopes = if thorough { 60000 } else { 1200 };
+  let templates = templates();
+
+  // ---------------------------------------------------------------- corpus (always first)
+  let mut corpus: Vec<(Vec<Vec<&str>>, &str, (bool, bool, bool, bool))> = vec![
+    (vec![], "for in+x in [1] return 1", (false, false, false, false)),
+    (vec![], "in+x in [1]", (false, false, false, true)),
+    (vec![], "in", (false, false, false, true)),
+    (vec![vec!["a"], vec!["b"], vec!["a", "-", "b"]], "a - b+a-b * a", (false, false, false, false)),
+    (vec![vec!["a"], vec!["a", "b"]], "a  b c", (false, false, false, false)),
+    (vec![vec!["a", "+", "-", "b"]], "a+-b + 1", (false, false, false, false)),
+    (vec![vec!["a", "+"]], "a+ (1)", (false, false, false, false)),
+    (vec![vec!["item"], vec!["item", "x"]], "item x", (false, false, false, false)),
+    (vec![], "date and time(\"2021-01-01T00:00:00\") date: time : duration", (false, false, true, false)),
+    (vec![], "\"\\uD83D\\uDE4F\" \"\\uD83D\\uDC0E\" \"\\U01F40E\" \"\\u00e9\\n\" \"\\uD83D\" \"\\uDC0E\" \"\\uZ\" \"", (false, false, false, false)),
+    (vec![], "not (1) and 2 between 1 and 3 // x\n /* y */ .5 1.5. 1..2 **->", (true, true, false, false)),
+  ];
+  corpus.push((vec![vec!["x", "y"]], "x   y in [1]", (false, false, false, true)));
+
+  struct TokCase {
+    input: String,
+    keys: Vec<String>,
+    flags: (bool, bool, bool, bool),
+    imp: Result<Vec<(i32, String, usize)>, String>,
+    nontrivial: bool,
+    family: &'static str,
+  }
+  let mut tok_cases: Vec<TokCase> = vec![];
+  for (names, input, flags) in &corpus {
+    let scope = Scope::default();
+    for p in names {
+      scope.set_entry(&Name::new(p), Value::Number(FeelNumber::from_i128(1)));
+    }
+    let keys = sorted_keys(&scope);
+    let imp = impl_tokens(&scope, input, *flags, 200);
+    tok_cases.push(TokCase { input: input.to_string(), keys, flags: *flags, imp, nontrivial: true, family: "corpus" });
+  }
+
+  // ---------------------------------------------------------------- generated scopes
+  struct ResolveCase {
+    input: String,
+    bound: Vec<String>,
+    imp: Result<Vec<(i32, String, usize)>, String>,
+    nontrivial: bool,
+    exotic: bool,
+    exotic_names: Vec<String>,
+  }
+  struct EvalCase {
+    text: String,
+    all_bound: Vec<Bound>,
+    /// (start, end) char offsets of every name occurrence, in order
+    occurrences: Vec<(usize, usize)>,
+    locals: Vec<Vec<String>>,
+    family: &'static str,
+    impl_value: String,
+    nontrivial: bool,
+    exotic: bool,
+  }
+  let mut resolve_cases: Vec<ResolveCase> = vec![];
+  let mut eval_cases: Vec<EvalCase> = vec![];
+  let followers = ["", " ", " in [1]", " between 1 and 2", "[1]", "(1)", ".x", " . x", " + 1", "+1", "-1", " - 1", "*2", "/2", "'", ")", " then 1", " else 1", ", 1", ": 1", " 1", " q", "..3", " instance of number", "}", "]", " = 1", "<1", " and true", "\n"];
+
+  // fixed witnesses of finding F19 (always run): a bound name with adjacent additional symbols,
+  // one with a trailing symbol, each followed by ` + 1`
+  for parts in [vec!["a", "+", "-", "b"], vec!["a", "+"]] {
+    let parts: Vec<String> = parts.iter().map(|s| s.to_string()).collect();
+    let name = Name::new(&parts.iter().map(|s| s.as_str()).collect::<Vec<&str>>());
+    let b = Bound { parts: parts.clone(), name, value: Value::Number(FeelNumber::from_i128(2)), literal: "2".into(), exotic: true };
+    let occ = parts.concat();
+    let text = format!("{} + 1", occ);
+    let impl_value = eval_text(&scope_of(&[b.clone()]), &text);
+    eval_cases.push(EvalCase { text, all_bound: vec![b], occurrences: vec![(0, occ.chars().count())], locals: vec![], family: "operand", impl_value, nontrivial: true, exotic: true });
+  }
+
+  for si in 0..n_scopes {
+    let exotic = si % 10 == 9;
+    let mut bound = gen_bound(&mut rng, exotic);
+    if si % 3 == 0 {
+      // a context-valued bound name (flatten_keys then also has `fld` and `<name> . fld`)
+      let parts = gen_parts(&mut rng);
+      let name = Name::new(&parts.iter().map(|s| s.as_str()).collect::<Vec<&str>>());
+      if !bound.iter().any(|b| b.name == name) {
+        let mut ctx = FeelContext::default();
+        ctx.set_entry(&Name::from("fld"), Value::Number(FeelNumber::from_i128(2)));
+        bound.push(Bound { parts, name, value: Value::Context(ctx), literal: "{fld: 2}".into(), exotic: false });
+      }
+    }
+    let scope = scope_of(&bound);
+    let keys = sorted_keys(&scope);
+    let competing = bound.iter().any(|a| bound.iter().any(|b| a.parts.len() < b.parts.len() && b.parts[..a.parts.len()] == a.parts[..]));
+    rep.hit(&format!("scope:names={}", bound.len()));
+    if competing {
+      rep.hit("scope:has-prefix-competition");
+    }
+    if exotic {
+      rep.hit("scope:exotic(adjacent/trailing symbol)");
+    }
+    let bound_texts: Vec<String> = bound.iter().map(|b| b.name.to_string()).collect();
+    let exotic_names: Vec<String> = bound.iter().filter(|b| b.exotic).map(|b| b.name.to_string()).collect();
+
+    // (1) single occurrences with followers: token stream + resolution
+    for _ in 0..6 {
+      let b = rng.pick(&bound).clone();
+      let follower = *rng.pick(&followers);
+      let lead = if rng.chance(1, 5) { " " } else { "" };
+      let input = format!("{}{}{}", lead, render(&mut rng, &b.parts), follower);
+      let flags = if rng.chance(1, 8) { (rng.chance(1, 2), rng.chance(1, 2), rng.chance(1, 2), rng.chance(1, 2)) } else { (false, false, false, false) };
+      let imp = impl_tokens(&scope, &input, flags, 200);
+      let nontrivial = b.parts.len() > 1 || competing;
+      rep.hit(&format!("occurrence:parts={}", b.parts.len()));
+      rep.hit(&format!("follower:{:?}", follower));
+      if flags == (false, false, false, false) && lead.is_empty() {
+        resolve_cases.push(ResolveCase { input: input.clone(), bound: bound_texts.clone(), imp: imp.clone(), nontrivial, exotic: b.exotic, exotic_names: exotic_names.clone() });
+      }
+      tok_cases.push(TokCase { input, keys: keys.clone(), flags, imp, nontrivial, family: "occurrence" });
+    }
+
+    // (2) whole expressions: evaluation + token stream
+    for _ in 0..4 {
+      let numeric: Vec<Bound> = bound.iter().filter(|b| matches!(b.value, Value::Number(_))).cloned().collect();
+      let ctx_bound: Option<Bound> = bound.iter().find(|b| matches!(b.value, Value::Context(_))).cloned();
+      let (family, tpl) = loop {
+        let t = rng.pick(&templates).clone();
+        if ctx_bound.is_some() || !t.1.iter().any(|p| matches!(p, C)) {
+          break t;
+        }
+      };
+      let chosen: Vec<Bound> = (0..3).map(|_| rng.pick(&numeric).clone()).collect();
+      let mut locals: Vec<Vec<String>> = vec![];
+      let l0 = rng.below(LOCALS.len() as u64) as usize;
+      locals.push(LOCALS[l0].iter().map(|s| s.to_string()).collect());
+      locals.push(LOCALS[(l0 + 1 + rng.below(LOCALS.len() as u64 - 1) as usize) % LOCALS.len()].iter().map(|s| s.to_string()).collect());
+      let mut text = String::new();
+      let mut occurrences = vec![];
+      let mut multi = false;
+      for piece in &tpl {
+        match piece {
+          T(t) => text.push_str(t),
+          N(i) => {
+            let start = text.chars().count();
+            multi |= chosen[*i].parts.len() > 1;
+            text.push_str(&render(&mut rng, &chosen[*i].parts));
+            occurrences.push((start, text.chars().count()));
+          }
+          C => {
+            let cb = ctx_bound.as_ref().unwrap();
+            let start = text.chars().count();
+            multi |= cb.parts.len() > 1;
+            text.push_str(&render(&mut rng, &cb.parts));
+            occurrences.push((start, text.chars().count()));
+          }
+          L(j) => {
+            let start = text.chars().count();
+            multi = true;
+            text.push_str(&render(&mut rng, &locals[*j]));
+            occurrences.push((start, text.chars().count()));
+          }
+        }
+      }
+      // a fresh scope per evaluation: a failed parse leaves its pushed contexts in the scope
+      let impl_value = eval_text(&scope_of(&bound), &text);
+      rep.hit(&format!("position:{}", family));
+      let imp = impl_tokens(&scope, &text, (false, false, false, false), 400);
+      tok_cases.push(TokCase { input: text.clone(), keys: keys.clone(), flags: (false, false, false, false), imp, nontrivial: multi || competing, family: "expression" });
+      let exotic_case = chosen.iter().any(|b| b.exotic);
+      eval_cases.push(EvalCase { text, all_bound: bound.clone(), occurrences, locals, family, impl_value, nontrivial: multi || competing, exotic: exotic_case });
+    }
+
+    // (3) a random fragment over the lexer's alphabet, random flags
+    if si % 2 == 0 {
+      let alphabet: Vec<String> = {
+        let mut a: Vec<String> = vec![
+          " ", " ", "\t", "\n", "+", "-", "*", "/", "'", ".", "..", "**", "(", ")", "[", "]", "{", "}", ",", ":", "=", "!=", "<", "<=", ">", ">=", "->", "@", "\"", "\\", "\\u00e9",
+          "\\uD83D\\uDE4F", "\\U01F40E", "\\n", "//", "/*", "*/", "1", "23", "4.5", ".", "#", "%", "if", "then", "else", "for", "in", "return", "some", "every", "satisfies", "and", "or",
+          "not", "true", "false", "null", "function", "external", "instance", "of", "between", "item", "date", "time", "date and time", "duration", "list", "range", "context", "number",
+          "years and months duration", "\u{00A0}", "\u{FEFF}", "\u{200B}", "\u{200C}", "é", "𝒳", "\u{0300}", "\u{B7}",
+        ]
+        .iter()
+        .map(|s| s.to_string())
+        .collect();
+        for b in &bound {
+          a.extend(b.parts.iter().cloned());
+        }
+        a
+      };
+      let n = 1 + rng.below(14) as usize;
+      let mut input = String::new();
+      for _ in 0..n {
+        input.push_str(rng.pick(&alphabet).as_str());
+        if rng.chance(1, 3) {
+          input.push(' ');
+        }
+      }
+      let flags = (rng.chance(1, 4), rng.chance(1, 4), rng.chance(1, 4), rng.chance(1, 4));
+      let imp = impl_tokens(&scope, &input, flags, 200);
+      tok_cases.push(TokCase { input, keys: keys.clone(), flags, imp, nontrivial: true, family: "fragment" });
+    }
+  }
+
+  // ---------------------------------------------------------------- tokens: impl = model
+  let reqs: Vec<String> = tok_cases.iter().map(|c| tokenize_request(&c.keys, &c.input, c.flags, if c.family == "expression" { 400 } else { 200 })).collect();
+  let answers = model.ask_batch(&reqs);
+  for (c, a) in tok_cases.iter().zip(answers.iter()) {
+    rep.case(&format!("tokens|{:?}|{:?}|{}", c.keys, c.flags, c.input), c.nontrivial);
+    rep.hit(&format!("tokens:{}", c.family));
+    match &c.imp {
+      Err(_) => rep.hit("tokens:impl-panic"),
+      Ok(t) => {
+        if t.last().map(|x| x.0 == -1).unwrap_or(false) {
+          rep.hit("tokens:lexer-error");
+        }
+      }
+    }
+    if let Err((what, imp, exp)) = compare_streams(&c.imp, a) {
+      rep.disagree(
+        Kind::ImplVsModel,
+        "tokens",
+        &format!("lexer token stream: {}", what),
+        &format!("keys={:?} flags={:?} input={:?}", c.keys, c.flags, c.input),
+        &imp,
+        &exp,
+      );
+    }
+    if rep.samples.len() < 4 && c.family != "corpus" {
+      rep.sample(json!({"family": "tokens", "request": tokenize_request(&c.keys, &c.input, c.flags, 200), "model": a, "implementation": format!("{:?}", c.imp)}));
+    }
+  }
+
+  // ---------------------------------------------------------------- resolve: impl ⊨ spec
+  let reqs: Vec<String> = resolve_cases
+    .iter()
+    .map(|c| Sexp::list(vec![Sexp::atom("c10"), Sexp::atom("resolve"), Sexp::list(c.bound.iter().map(|k| Sexp::str(k)).collect()), Sexp::str(&c.input)]).to_string())
+    .collect();
+  let answers = model.ask_batch(&reqs);
+  for (c, a) in resolve_cases.iter().zip(answers.iter()) {
+    rep.case(&format!("resolve|{:?}|{}", c.bound, c.input), c.nontrivial);
+    let spec = Sexp::parse(a);
+    let expected = spec.as_ref().and_then(|s| s.as_list()).and_then(|l| {
+      if l.first()?.as_atom()? == "some" {
+        Some((cps_to_string(l.get(1)?)?, l.get(2)?.as_atom()?.parse::<usize>().ok()?))
+      } else {
+        None
+      }
+    });
+    let (name, len) = match expected {
+      Some(x) => x,
+      None => {
+        rep.hit("resolve:spec-none");
+        continue;
+      }
+    };
+    rep.hit("resolve:checked");
+    let got = match &c.imp {
+      Ok(t) if t.len() >= 2 => format!("{:?}", t[1]),
+      other => format!("{:?}", other),
+    };
+    let want = format!("{:?}", (TT::Name as i32, format!("Name(Name({:?}))", name), len));
+    if got != want {
+      let sig = if c.exotic || c.exotic_names.contains(&name) {
+        "longest bound name not chosen (name with adjacent or trailing additional symbols)"
+      } else {
+        "longest bound name not chosen at a name occurrence"
+      };
+      rep.disagree(Kind::ImplVsSpec, "resolve", sig, &format!("bound={:?} input={:?}", c.bound, c.input), &got, &want);
+    }
+    if rep.samples.len() < 8 {
+      rep.sample(json!({"family": "resolve", "bound": c.bound, "input": c.input, "spec": a, "implementation": got}));
+    }
+  }
+
+  // ---------------------------------------------------------------- evaluate: impl ⊨ spec
+  // Every occurrence is resolved by the specification against (bound names ∪ local names);
+  // the occurrence's range is replaced by the literal of the bound value (or by a fresh plain
+  // identifier for a local name); the result is evaluated in an empty scope.
+  let mut reqs = vec![];
+  for c in &eval_cases {
+    let chars: Vec<char> = c.text.chars().collect();
+    let mut names: Vec<String> = c.all_bound.iter().map(|b| b.name.to_string()).collect();
+    for l in &c.locals {
+      names.push(Name::new(&l.iter().map(|s| s.as_str()).collect::<Vec<&str>>()).to_string());
+    }
+    for (start, _) in &c.occurrences {
+      let rest: String = chars[*start..].iter().collect();
+      reqs.push(Sexp::list(vec![Sexp::atom("c10"), Sexp::atom("resolve"), Sexp::list(names.iter().map(|k| Sexp::str(k)).collect()), Sexp::str(&rest)]).to_string());
+    }
+  }
+  let answers = model.ask_batch(&reqs);
+  let mut ai = 0;
+  let empty = Scope::default();
+  for c in &eval_cases {
+    rep.case(&format!("evaluate|{:?}|{}", c.all_bound.iter().map(|b| b.name.to_string()).collect::<Vec<String>>(), c.text), c.nontrivial);
+    let chars: Vec<char> = c.text.chars().collect();
+    let mut expected_text = String::new();
+    let mut cursor = 0usize;
+    let mut ok = true;
+    let mut resolved = vec![];
+    let mut partial = false;
+    for (start, _) in &c.occurrences {
+      let a = &answers[ai];
+      ai += 1;
+      if *start < cursor || !ok {
+        continue; // inside a longer match
+      }
+      let spec = Sexp::parse(a);
+      let r = spec.as_ref().and_then(|s| s.as_list()).and_then(|l| {
+        if l.first()?.as_atom()? == "some" {
+          Some((cps_to_string(l.get(1)?)?, l.get(2)?.as_atom()?.parse::<usize>().ok()?))
+        } else {
+          None
+        }
+      });
+      match r {
+        None => ok = false,
+        Some((name, len)) => {
+          expected_text.extend(chars[cursor..*start].iter());
+          if let Some(b) = c.all_bound.iter().find(|b| b.name.to_string() == name) {
+            expected_text.push_str(&b.literal);
+          } else if let Some(j) = c.locals.iter().position(|l| Name::new(&l.iter().map(|s| s.as_str()).collect::<Vec<&str>>()).to_string() == name) {
+            expected_text.push_str(&format!("v{}", j));
+          } else {
+            ok = false;
+          }
+          resolved.push(name);
+          cursor = start + len;
+          if !c.occurrences.iter().any(|(_, e)| *e == cursor) {
+            // the longest match ends inside a later occurrence: the rest of that occurrence is
+            // not a recorded name start; such a case is not judged
+            partial = true;
+          }
+        }
+      }
+    }
+    if !ok {
+      rep.hit("evaluate:spec-none");
+      continue;
+    }
+    if partial {
+      rep.hit("evaluate:not-judged(match ends inside a later occurrence)");
+      continue;
+    }
+    expected_text.extend(chars[cursor..].iter());
+    let expected = eval_text(&empty, &expected_text);
+    rep.hit("evaluate:checked");
+    if expected == "null" || expected.starts_with("parse-error") {
+      rep.hit("evaluate:expected-null-or-error");
+    }
+    if expected != c.impl_value {
+      let involves_exotic = c.exotic || c.all_bound.iter().any(|b| b.exotic && resolved.contains(&b.name.to_string()));
+      let sig = if involves_exotic {
+        "bound name does not evaluate to its bound value (scope with a name with adjacent or trailing additional symbols)".to_string()
+      } else {
+        format!("bound name does not evaluate to its bound value: position {}", c.family)
+      };
+      rep.disagree(
+        Kind::ImplVsSpec,
+        "evaluate",
+        &sig,
+        &format!("bound={:?} expression={:?}", c.all_bound.iter().map(|b| (b.name.to_string(), b.literal.clone())).collect::<Vec<_>>(), c.text),
+        &c.impl_value,
+        &format!("{} (value of {:?}; occurrences resolve to {:?})", expected, expected_text, resolved),
+      );
+    }
+    if rep.samples.len() < 12 {
+      rep.sample(json!({"family": "evaluate", "bound": c.all_bound.iter().map(|b| (b.name.to_string(), b.literal.clone())).collect::<Vec<_>>(),
+        "expression": c.text, "implementation": c.impl_value, "specification": expected, "substituted": expected_text}));
+    }
+  }
+
+  // ---------------------------------------------------------------- namenew: impl = model
+  let mut part_lists: Vec<Vec<String>> = vec![];
+  let junk = ["a", "b c", " a ", "", ".", " . ", "-", "+", "*", "/", "'", "\t x", "é", "..", "a.b", "\u{00A0}z\u{2003}"];
+  for _ in 0..(if thorough { 20000 } else { 3000 }) {
+    let n = rng.below(6) as usize;
+    part_lists.push((0..n).map(|_| rng.pick(&junk).to_string()).collect());
+  }
+  for _ in 0..(if thorough { 5000 } else { 1000 }) {
+    part_lists.push(gen_parts(&mut rng));
+  }
+  let reqs: Vec<String> = part_lists
+    .iter()
+    .map(|p| Sexp::list(vec![Sexp::atom("c10"), Sexp::atom("namenew"), Sexp::list(p.iter().map(|k| Sexp::str(k)).collect())]).to_string())
+    .collect();
+  let answers = model.ask_batch(&reqs);
+  for (p, a) in part_lists.iter().zip(answers.iter()) {
+    rep.case(&format!("namenew|{:?}", p), p.len() > 1);
+    let imp = Name::new(&p.iter().map(|s| s.as_str()).collect::<Vec<&str>>()).to_string();
+    let m = Sexp::parse(a).and_then(|s| s.as_list().and_then(|l| cps_to_string(l.first()?)));
+    if m.as_deref() != Some(imp.as_str()) {
+      rep.disagree(Kind::ImplVsModel, "namenew", "Name::new differs from the model", &format!("{:?}", p), &imp, &format!("{:?}", m));
+    }
+  }
+
+  rep.model_requests = model.requests;
+  rep
 }
